@@ -155,6 +155,14 @@ class Flow(object):
             pscope = self.scope.parent
             if pscope:
                 snames = pscope.names
+                outer = pscope
+                while isinstance(outer, CompScope):
+                    outer = outer.parent
+                if outer is not pscope and not isinstance(outer, ClassScope):
+                    # a function written inside a comprehension runs later:
+                    # besides what the comprehension sees, it sees what the
+                    # scope around the comprehension binds afterwards
+                    snames = MergedDict(snames, outer.names)
                 if isinstance(self.scope, (ClassScope, SourceScope)):
                     # class and module bodies look names up at run time:
                     # what they bind later does not hide the outer name now
